@@ -26,17 +26,37 @@
 //! the end of the program with at most the tier's preemption bound (by default the program runs
 //! before the marking packets; a preemption lets the marking run up to any of its points).
 //!
-//! Oracle (`satb:<clause>:satb`, `heap:<clause>:satb`): snapshot objects and objects allocated
+//! Scenario `satb2` (two mutators, `sched::Kind::Satb2`, `Child::satb2_execution`): the child has
+//! two bound mutators, each with its own `Mutator` (own SATB barrier and buffers).  Graph root0 -> A,
+//! A.f -> B -> C, A.g -> G (B, C, G reachable only through A; same size / alignment as above).  After
+//! the initial-mark pause mutator 0 (the controller thread) and mutator 1 (a second baton thread
+//! created with `Inst::spawn`) each run a program of 1-2 reference stores into the SAME, not yet
+//! logged, object A ({A.f <- null; A.g <- null; A.f <- G}; e.g. m0: A.f <- null | m1: A.g <- null,
+//! both the same field, one of them two ops: `sched::satb2_programs`) through
+//! `memory_manager::object_reference_write_pre` of their own mutator, followed by the store.
+//! Scheduling points in addition to the ones above: the two reference fields of A as locations
+//! (the store of an op; the field loads of whoever scans A through the binding's `scan_object`: the
+//! barrier's slow path on either mutator thread, the marker; `vm::SCAN_SLOT_POINTS`).  The window is
+//! open until both programs have ended.  When mutator 1's program has ended its thread ends (the
+//! mutator stays bound, at a safepoint); the controller waits for that and for the end of the
+//! marking, then its next poll brings the final-mark pause, which visits (flushes) both mutators.
+//! In the programs marked `destroy` mutator 1 is destroyed instead, on its own thread and inside the
+//! window (`memory_manager::destroy_mutator`, whose flush must hand the barrier's buffer to the
+//! collector while the marking is in progress or already complete); the later pauses then see
+//! mutator 0 only, and a new mutator 1 is bound when the execution is over.
+//! Steps (5), (6) and the oracle are the ones above, over A, B, C, G.
+//!
+//! Oracle (`satb:<clause>:satb`, `heap:<clause>:satb`; `...:satb2` for the second scenario): snapshot objects and objects allocated
 //! during marking are unchanged right after the final pause and after the line-reusing burst
 //! (with feature vo_bit also: still MMTk objects); the shadow-heap check after the pauses and the
 //! full collection; engine verdicts (deadlock ...), mmtk-core's own assertions.
 
 use crate::common::{Run, Tier};
-use crate::props::sched::{self, satb_programs, ChildCfg, Job, Kind, Pattern, Plan};
+use crate::props::sched::{self, satb2_programs, satb_programs, ChildCfg, Job, Kind, Pattern, Plan};
 use serde_json::Value;
 
 pub fn owns(sig: &str) -> bool {
-    sig.ends_with(":satb")
+    sig.ends_with(":satb") || sig.ends_with(":satb2")
 }
 
 pub fn plans(tier: Tier) -> Vec<Plan> {
@@ -54,21 +74,49 @@ pub fn plans(tier: Tier) -> Vec<Plan> {
             out.push(Plan { cfg: cfg.clone(), jobs });
         }
     }
+    // scenario `satb2`: two mutators (own barrier, own buffers) write fields of the same object.
+    // Measured (1 worker): <= 1 preemption: ~62 executions per program; <= 2 preemptions without
+    // free deviations: ~800-1 100, with them: ~1 700-2 100; 2 workers, <= 2 / <= 2: ~10 700-13 000;
+    // about 10 ms per execution (3 pauses + 2 full collections), one child process per program.
+    let worker_counts: Vec<usize> = if thorough { vec![1, 2] } else { vec![1] };
+    for workers in worker_counts {
+        let cfg = ChildCfg { plan: "ConcurrentImmix".to_string(), workers, eph_chain: 0, refs: false, options: vec![], mutators: 2, bare: true };
+        for (i, p) in satb2_programs(if thorough { 1 } else { 0 }).into_iter().enumerate() {
+            let job = |bound: u32, free_bound: u32| Job { kind: Kind::Satb2, pattern: Pattern::empty(), via_worker: false, bound, free_bound, spurious: 0, prog: p.clone() };
+            // quick: (<= 2 preemptions, no free deviation) and (<= 1 preemption, <= 2 free
+            // deviations); thorough: <= 2 preemptions and <= 2 free deviations (a superset of both),
+            // and for the first two pairs (one op each: different fields, same field) with 1 worker
+            // also <= 3 preemptions without free deviations (~15 700 executions, ~3 min each;
+            // with <= 2 free deviations it is ~30 500, ~5 min on an idle machine: too long)
+            let jobs = if !thorough {
+                vec![job(2, 0), job(1, 2)]
+            } else if workers == 1 && i < 2 {
+                vec![job(3, 0), job(2, 2)]
+            } else {
+                vec![job(2, 2)]
+            };
+            out.push(Plan { cfg: cfg.clone(), jobs });
+        }
+    }
+    // the longest children first (the parent starts the children in this order)
+    out.sort_by_key(|p| std::cmp::Reverse(p.jobs[0].kind == Kind::Satb2 && p.jobs.iter().any(|j| j.bound >= 3)));
     out
 }
 
-pub const RULE: &str = "per (GC workers {1; thorough 1, 2}, mutator program of <= 2 (thorough 3) ops over {A.f <- null; D.f <- A.f, drop root of D; E = alloc; E.f <- A.f.f; A.f <- E; R <- A.f} on the graph root -> A -> B -> C, root -> D): one concurrent cycle of a real ConcurrentImmix instance (initial-mark pause triggered by an allocation burst, the program through the real SATB write barrier racing with the real concurrent marking packets, final-mark pause at the next poll, line-reusing allocation burst, full collection); every interleaving of mutator and GC workers at the packet boundaries, the mark / log bit atomics of the five objects and the op boundaries between the end of the initial-mark pause and the end of the program, with at most the stated preemptions; states = executions, non-trivial = executions in which a marking packet ran between the first and the last op of the program or was interrupted by the program";
+pub const RULE: &str = "scenario satb: per (GC workers {1; thorough 1, 2}, mutator program of <= 2 (thorough 3) ops over {A.f <- null; D.f <- A.f, drop root of D; E = alloc; E.f <- A.f.f; A.f <- E; R <- A.f} on the graph root -> A -> B -> C, root -> D): one concurrent cycle of a real ConcurrentImmix instance (initial-mark pause triggered by an allocation burst, the program through the real SATB write barrier racing with the real concurrent marking packets, final-mark pause at the next poll, line-reusing allocation burst, full collection); every interleaving of mutator and GC workers at the packet boundaries, the mark / log bit atomics of the five objects and the op boundaries between the end of the initial-mark pause and the end of the program, with at most the stated preemptions; states = executions, non-trivial = executions in which a marking packet ran between the first and the last op of the program or was interrupted by the program; scenario satb2: per (GC workers {1; thorough 1, 2}, pair of programs of mutator 0 and mutator 1, each 1-2 stores of {A.f <- null; A.g <- null; A.f <- G} into the same unlogged object A of the graph root -> A, A.f -> B -> C, A.g -> G, each through its own mutator's SATB barrier on its own thread): the same cycle; every interleaving of the two mutators and the GC workers at the packet boundaries, the mark / log bit atomics of A, B, C, G, the loads and stores of A's two reference fields and the op boundaries, from the end of the initial-mark pause until both programs have ended, within the stated bounds on preemptions and free deviations; non-trivial = executions in which an op of one mutator began while an op of the other mutator was in progress";
 
 pub fn run(run: &mut Run) {
     let plans = plans(run.tier);
     run.set("child_processes", plans.len() as u64);
     run.set("programs", satb_programs(run.tier.pick(2, 3)).len() as u64);
+    run.set("programs_two_mutators", satb2_programs(run.tier.pick(0, 1)).len() as u64);
     sched::run_parent(run, plans, &owns, run.tier.pick(300, 3000));
     run.set("rule", RULE);
     run.set("placement", crate::vm::PLACEMENT);
     run.assume("sequentially consistent interleavings at the instrumented points only; the marking of other objects, the bulk log-bit operations of the pauses, line / block state and the allocators are atomic steps between them");
     run.assume("outside the window (graph construction, initial-mark pause, final-mark pause, bursts, full collections) the default schedule runs; by default the mutator program runs before the concurrent marking packets");
-    run.assume("one mutator; the program's objects are 1 KiB, line-aligned; programs of the stated alphabet only (no weak references, no array copies: memory_region_copy, object_probable_write are not exercised)");
+    run.assume("scenario satb2: two mutators, 7 (thorough 13) fixed pairs of programs; bounds: quick (<= 2 preemptions, no free deviation) and (<= 1 preemption, <= 2 free deviations); thorough <= 2 preemptions and <= 2 free deviations, and (<= 3 preemptions, no free deviation) for two pairs with 1 worker; mutator 1 does not allocate and has no roots; its thread ends with its program while the mutator stays bound (the final-mark pause flushes it), or (1 pair, thorough 3) it is destroyed at the end of its program (destroy_mutator on its own thread during the cycle)");
+    run.assume("scenario satb: one mutator; the program's objects are 1 KiB, line-aligned; programs of the stated alphabet only (no weak references, no array copies: memory_region_copy, object_probable_write are not exercised)");
 }
 
 pub fn replay(case: &Value, run: &mut Run) {
